@@ -37,7 +37,7 @@
 EXTENDS Integers, Sequences, FiniteSets, TLC, Json
 
 CONSTANTS
-  Impl,      \* "Deep" | "ShallowPayload" | "MuxNoClone" | "AsyncNoClone" | "DropDup" | "DropID" | "DropRetain"
+  Impl,      \* "Deep" | "ShallowPayload" | "MuxNoClone" | "AsyncNoClone" | "DropDup" | "DropID" | "DropRetain" | "SwapFlags"
   MaxH,      \* 1..3: maximal number of handlers registered on a ServeMux
   MutKinds,  \* mutation kinds a handler may apply (subset of AllMuts)
   PayKinds,  \* payload shapes of the first message (subset of AllPays)
@@ -87,7 +87,8 @@ Buf1(p) == CASE p = "tight"  -> <<1, 2, 3>>         \* len 3, cap 3
 Len1(p) == IF p \in {"tight", "spare"} THEN 3 ELSE 0
 (* The second message (mode "fresh") is a different object with different   *)
 (* content in every field.                                                  *)
-Msg2(buf) == [topic |-> "t/b", id |-> 9, qos |-> 2, retain |-> FALSE, dup |-> FALSE, buf |-> buf, off |-> 0, len |-> 2]
+\* (RETAIN and DUP differ in the second message: a copy that exchanges them is a wrong copy -- seeded change c20i, Impl "SwapFlags")
+Msg2(buf) == [topic |-> "t/b", id |-> 9, qos |-> 2, retain |-> TRUE, dup |-> FALSE, buf |-> buf, off |-> 0, len |-> 2]
 Buf2 == <<11, 12>>
 
 ---------------------------------------------------------------------------
@@ -101,9 +102,9 @@ DoClone(ms, bs, m) ==
       shallow == Impl = "ShallowPayload"
       y == [x EXCEPT !.buf = IF shallow THEN x.buf ELSE IF pay = <<>> THEN 0 ELSE Len(bs) + 1,
                      !.off = IF shallow THEN x.off ELSE 0,
-                     !.dup = IF Impl = "DropDup" THEN FALSE ELSE x.dup,
+                     !.dup = IF Impl = "DropDup" THEN FALSE ELSE IF Impl = "SwapFlags" THEN x.retain ELSE x.dup,
                      !.id = IF Impl = "DropID" THEN 0 ELSE x.id,
-                     !.retain = IF Impl = "DropRetain" THEN FALSE ELSE x.retain]
+                     !.retain = IF Impl = "DropRetain" THEN FALSE ELSE IF Impl = "SwapFlags" THEN x.dup ELSE x.retain]
   IN [ms |-> Append(ms, y), bs |-> IF shallow \/ pay = <<>> THEN bs ELSE Append(bs, pay), ref |-> Len(ms) + 1]
 
 (* Writes through a message pointer.  Fill(.., v): Payload[j] = v + j for    *)
